@@ -104,7 +104,7 @@ func equalp(x, y slip.Object) bool {
 			return equal(tx.Value, ty.Value)
 		}
 	default:
-		if x.Equal(y) {
+		if slip.ObjectEqual(x, y) {
 			return true
 		}
 	}
